@@ -1522,13 +1522,15 @@ fn format_hanging_expression_(
 
             let singleline_shape = current_shape + strip_trivia(binop).to_string().len() + 1; // 1 = space after binop
 
+            // The RHS is the operand of a binary operator: it is formatted under the same context as in the single line
+            // formatter, so that parentheses which are needed there [e.g. `X ^ (Y :: T) < Z`] are not removed
             let mut new_rhs = hang_binop_expression(
                 ctx,
                 *rhs.to_owned(),
                 binop.to_owned(),
                 singleline_shape,
                 None,
-                ExpressionContext::Standard,
+                ExpressionContext::UnaryOrBinary,
             );
 
             // Examine the last line to see if we need to hang this binop, or if the precedence levels match
@@ -1547,7 +1549,7 @@ fn format_hanging_expression_(
                     binop.to_owned(),
                     hanging_shape,
                     None,
-                    ExpressionContext::Standard,
+                    ExpressionContext::UnaryOrBinary,
                 )
                 .update_leading_trivia(FormatTriviaType::Replace(Vec::new()));
             }
